@@ -49,6 +49,9 @@ def _docstring_stripped(body: list[ast.stmt]) -> list[ast.stmt]:
     return body
 
 
+PUBLIC_EXPR_HELPERS = False
+
+
 def eligible_helper(prog: Program, h: FuncInfo, _cache: dict = {}) -> bool:
     key = (id(prog), h.qname)
     if key in _cache:
@@ -62,8 +65,20 @@ def _eligible(prog: Program, h: FuncInfo) -> bool:
     n = h.node
     if not isinstance(n, ast.FunctionDef) or h.parent is not None:
         return False
-    if not n.name.startswith("_") or (n.name.startswith("__") and n.name.endswith("__")):
+    if n.name.startswith("__") and n.name.endswith("__"):
         return False
+    if not n.name.startswith("_"):
+        # a public *method* is treated like a private helper only when it is a pure expression helper of a non-visitor class, is not
+        # overridden anywhere, and carries no decorator (properties, caches, abstract methods keep their identity)
+        body = _docstring_stripped(n.body)
+        if h.cls is None or n.decorator_list or not (len(body) == 1 and isinstance(body[0], ast.Return) and body[0].value is not None):
+            return False
+        if any(n.name in prog.classes[q].methods for q in prog.all_subclasses(h.cls.qname) if q in prog.classes):
+            return False
+        if any(n.name in c.methods for c in prog.mro_classes(h.cls.qname)[1:]):
+            return False
+        if not PUBLIC_EXPR_HELPERS:
+            return False
     for d in n.decorator_list:
         if not (isinstance(d, ast.Name) and d.id == "staticmethod"):
             return False
@@ -337,7 +352,7 @@ class Inliner:
             return None
         f = call.func
         if isinstance(f, ast.Attribute):
-            if not f.attr.startswith("_"):
+            if not f.attr.startswith("_") and not (PUBLIC_EXPR_HELPERS and isinstance(f.value, ast.Name) and f.value.id == "self"):
                 return None
         elif isinstance(f, ast.Name):
             if not f.id.startswith("_"):
